@@ -2,6 +2,7 @@
 //! Sensors project concrete output (XML, path data, pixels) to integers; they never judge.
 use crate::common::*;
 use crate::gen::*;
+#[cfg(feature = "image")]
 use fast_qr::convert::image::ImageBuilder;
 use fast_qr::convert::svg::SvgBuilder;
 use fast_qr::convert::{Builder, ImageBackgroundShape, Shape};
@@ -385,14 +386,18 @@ pub fn frames(sink: &mut Sink, seed: u64, thorough: bool) {
 }
 
 // ------------------------------------------------------------------ raster (C13)
+#[cfg(feature = "image")]
 fn close(a: [u8; 4], b: [u8; 4]) -> bool { (0..4).all(|i| (a[i] as i32 - b[i] as i32).abs() <= 1) }
+#[cfg(feature = "image")]
 fn packbits(bits: &[u8]) -> Vec<u32> { pack(bits, 24, 1) }
 
+#[cfg(feature = "image")]
 pub fn image_builder(p: &[Call]) -> ImageBuilder {
     let mut b = ImageBuilder::default();
     for c in p { match c { Call::FitWidth(w) => { b.fit_width(*w); } Call::FitHeight(h) => { b.fit_height(*h); } other => other.apply(&mut b) } }
     b
 }
+#[cfg(feature = "image")]
 fn decode_png(bytes: &[u8]) -> Option<(u32, u32, Vec<u8>)> {
     let dec = png::Decoder::new(bytes);
     let mut reader = dec.read_info().ok()?;
@@ -402,6 +407,7 @@ fn decode_png(bytes: &[u8]) -> Option<(u32, u32, Vec<u8>)> {
     buf.truncate(info.buffer_size());
     Some((info.width, info.height, buf))
 }
+#[cfg(feature = "image")]
 fn demul(p: &[u8]) -> [u8; 4] {
     let a = p[3] as u32;
     if a == 0 { return [0, 0, 0, 0]; }
@@ -410,6 +416,7 @@ fn demul(p: &[u8]) -> [u8; 4] {
     [f(p[0]), f(p[1]), f(p[2]), p[3]]
 }
 
+#[cfg(feature = "image")]
 /// Projection of the pixmap: side, palette of the distinct colours found at cell centres (premultiplied RGBA), per cell the
 /// palette index of its centre pixel (15 = palette overflow) and, at integer scale, whether the whole cell is uniform.
 pub fn raster_event(id: u64, tag: &str, qr: &QRCode, prog: &[Call]) -> Value {
@@ -491,6 +498,7 @@ pub fn raster_event(id: u64, tag: &str, qr: &QRCode, prog: &[Call]) -> Value {
     ev
 }
 
+#[cfg(feature = "image")]
 pub fn raster(sink: &mut Sink, seed: u64, thorough: bool) {
     let versions: Vec<usize> = if thorough { (1..=40).collect() } else { vec![1, 2, 7, 14, 27, 40] };
     let pairs: [([u8; 4], [u8; 4]); 4] = [([0, 0, 0, 255], [255, 255, 255, 255]), ([18, 52, 86, 255], [250, 240, 230, 64]), ([200, 30, 40, 255], [255, 255, 255, 0]), ([255, 255, 255, 255], [0, 0, 0, 255])];
@@ -658,7 +666,7 @@ pub fn sessions(sink: &mut Sink, seed: u64, thorough: bool, alphabet: &str, beha
                         1 => { let p = scratch_file(&format!("session-{tag}.svg")); let r = bb.to_file(qr, &p); let t = std::fs::read_to_string(&p).unwrap_or_default(); let _ = std::fs::remove_file(&p);
                                match r { Ok(()) => t, Err(e) => format!("to_file failed: {e:?}") } }
                         2 => { let _ = bb.to_file(qr, "/nonexistent-directory-fqv/x.svg"); bb.to_str(qr) }
-                        _ => { let mut ib = ImageBuilder::default(); ib.fit_width(64); let _ = ib.to_pixmap(qr); bb.to_str(qr) }
+                        _ => { other_renderer(qr); bb.to_str(qr) }
                     }
                 };
                 let s = via(&b, "live");
@@ -677,6 +685,7 @@ pub fn sessions(sink: &mut Sink, seed: u64, thorough: bool, alphabet: &str, beha
         }
     }
     // the same for the raster builder (pixmap bytes compared with a fresh builder's)
+    #[cfg(feature = "image")]
     for pi in 0..(if thorough { 120 } else { 30 }) {
         let segs = r.gen_range(2..4);
         let plan: Vec<(Vec<Call>, usize)> = (0..segs).map(|si| {
@@ -715,11 +724,16 @@ pub fn sessions(sink: &mut Sink, seed: u64, thorough: bool, alphabet: &str, beha
     }
 }
 
+#[cfg(feature = "image")]
+fn other_renderer(qr: &QRCode) { let mut ib = ImageBuilder::default(); ib.fit_width(64); let _ = ib.to_pixmap(qr); }
+#[cfg(not(feature = "image"))]
+fn other_renderer(qr: &QRCode) { let _ = qr.to_str(); }
 fn scratch_file(name: &str) -> String {
     let base = std::env::var("FQV_SCRATCH").map(std::path::PathBuf::from).unwrap_or_else(|_| std::env::temp_dir());
     base.join(format!("fqv-{}-{name}", std::process::id())).to_string_lossy().to_string()
 }
 
+#[cfg(feature = "image")]
 /// C18 through ImageBuilder: explicit size, gap and position (x different from y, all over the symbol), three frame shapes; the file the
 /// reference names does not exist, so the frame stays visible.  Integer scale, square modules: every cell centre is judged.
 pub fn rasterframes(sink: &mut Sink, seed: u64, thorough: bool) {
@@ -797,6 +811,7 @@ pub fn callbacks(sink: &mut Sink, seed: u64, thorough: bool) {
 }
 
 // ------------------------------------------------------------------ growth: conversions and the Module API (not listed properties)
+#[cfg(feature = "image")]
 /// Colour conversions for every input type, shape <-> string conversions, Module constructors / set / toggle, QRCode::default
 pub fn conv(sink: &mut Sink, seed: u64, thorough: bool) {
     use fast_qr::convert::{rgba2hex, Color};
